@@ -39,6 +39,7 @@ type Keys struct {
 	reading   bool        // Currently reading keys out of the main loop.
 	keysOnce  chan []byte // Passing keys from the main routine.
 	cursor    chan []byte // Cursor coordinates has been read on stdin.
+	asked     int         // Number of pending queries for the cursor coordinates.
 	resize    chan bool   // Resize events on Windows are sent on stdin. USED IN WINDOWS
 	closed    error       // The input has ended or failed: no more keys will ever be read.
 
